@@ -31,7 +31,7 @@ func init() {
 		// AddCert is called for its effect on the pool; an oracle is pure, so the translation drops the effect:
 		// the pool handed to SignedToken.Verify is always NewCertPool() (limitation, docs/audit/C06.md).
 		{Pkg: "crypto/x509", Func: "NewCertPool", Oracle: true},
-		{Pkg: "crypto/x509", Func: "(*CertPool).AddCert", Oracle: true},
+		{Pkg: "crypto/x509", Func: "(*CertPool).AddCert", Oracle: true, Drop: true}, // Drop (added by b-gen): the effect on the pool is declared irrelevant; without it the statement call is now refused
 		{Pkg: ".../internal/container", Func: "New"},
 		{Pkg: ".../internal/container", Func: "Set.Add"},
 		{Pkg: ".../internal/container", Func: "Set.Contains"},
